@@ -80,21 +80,22 @@ Definition flatten (dr : derives_registry) (r : registry) : result flat_registry
                          end) r in
     let key_of (id : N) : option string :=
       match find (fun e => N.eqb (fst e) id) keys with Some (_, k) => k | None => None end in
-    (* per type in registry order: take (remove) the recursive entry of its path *)
+    (* per type in registry order: every type whose path has a recursive entry is a root
+       (after the F13 repair the entry is no longer removed after its first use) *)
     let* acc :=
-      (fix go (l : list (N * option string)) (rec : kmap) (acc : list (N * derives))
+      (fix go (l : list (N * option string)) (acc : list (N * derives))
          : result (list (N * derives)) :=
          match l with
          | [] => Ok acc
-         | (id, None) :: l' => go l' rec acc
+         | (id, None) :: l' => go l' acc
          | (id, Some k) :: l' =>
-             match kmap_get rec k with
-             | None => go l' rec acc
+             match kmap_get (dr_recursive dr) k with
+             | None => go l' acc
              | Some d =>
                  let* ids := collect_type_ids r id in
-                 go l' (kmap_remove rec k) (acc ++ map (fun i => (i, d)) ids)
+                 go l' (acc ++ map (fun i => (i, d)) ids)
              end
-         end) keys (dr_recursive dr) [] in
+         end) keys [] in
     (* merge per id into the specific derives of that id's path *)
     let spec :=
       fold_left (fun m '(id, d) =>
